@@ -9,7 +9,7 @@ node states, Leader Completeness for nodes in the leader role, snapshots, and th
 namespace RaftModel.P
 
 /-- any two leader commits agree on their common prefix -/
-theorem commits_agree {c0 : Cfg} {s : PSys} (hB : InvB c0 s) (hC : InvC c0 s)
+theorem commits_agree {s : PSys} (hB : InvB s) (hC : InvC s)
     {p p' : Nat × Nat} (hp : p ∈ s.cmts) (hp' : p' ∈ s.cmts) {k : Nat} (hk : k ≤ p.2) (hk' : k ≤ p'.2) :
     (s.llog p.1).take k = (s.llog p'.1).take k := by
   rcases Nat.le_total p.1 p'.1 with h | h
@@ -17,7 +17,7 @@ theorem commits_agree {c0 : Cfg} {s : PSys} (hB : InvB c0 s) (hC : InvC c0 s)
   · exact cmt_prefix_le hB hC.c3 hC.lc hp' h (hC.c3.cq p hp).2.2.2.1 hk'
 
 /-- two committed prefixes (of any two logs, as of any terms) agree -/
-theorem cmtPre_agree {c0 : Cfg} {s : PSys} (hB : InvB c0 s) (hC : InvC c0 s)
+theorem cmtPre_agree {s : PSys} (hB : InvB s) (hC : InvC s)
     {t t' k k' : Nat} {l l' : List LEntry} (h : CmtPre s t k l) (h' : CmtPre s t' k' l') {m : Nat}
     (hm : m ≤ k) (hm' : m ≤ k') : l.take m = l'.take m := by
   rcases h with h | ⟨p, hp, h1, _, h3⟩
@@ -30,19 +30,19 @@ theorem cmtPre_agree {c0 : Cfg} {s : PSys} (hB : InvB c0 s) (hC : InvC c0 s)
   exact commits_agree hB hC hp hp' (by omega) (by omega)
 
 /-- **State Machine Safety**: the logs of any two nodes agree up to any index both report committed -/
-theorem sm_safety {c0 : Cfg} {s : PSys} (hB : InvB c0 s) (hC : InvC c0 s) (i j k : Nat)
+theorem sm_safety {s : PSys} (hB : InvB s) (hC : InvC s) (i j k : Nat)
     (hi : k ≤ (s.nodes i).commit) (hj : k ≤ (s.nodes j).commit) :
     (s.nodes i).log.take k = (s.nodes j).log.take k :=
   cmtPre_agree hB hC (hC.c3.cm i) (hC.c3.cm j) hi hj
 
 /-- ... also against what any node holds durably (what it restarts from) -/
-theorem sm_safety_durable {c0 : Cfg} {s : PSys} (hB : InvB c0 s) (hC : InvC c0 s) (i j k : Nat)
+theorem sm_safety_durable {s : PSys} (hB : InvB s) (hC : InvC s) (i j k : Nat)
     (hi : k ≤ (s.nodes i).commit) (hj : k ≤ (s.nodes j).dcommit) :
     (s.nodes i).log.take k = (s.nodes j).dlog.take k :=
   cmtPre_agree hB hC (hC.c3.cm i) (hC.c3.cmd j) hi hj
 
 /-- ... and against every released snapshot -/
-theorem snapshot_committed {c0 : Cfg} {s : PSys} (hB : InvB c0 s) (hC : InvC c0 s) (m : Snap) (hm : m ∈ s.snaps)
+theorem snapshot_committed {s : PSys} (hB : InvB s) (hC : InvC s) (m : Snap) (hm : m ∈ s.snaps)
     (i : Nat) (hi : m.idx ≤ (s.nodes i).commit) : (s.nodes i).log.take m.idx = m.pre := by
   obtain ⟨hel, hcm, hlen, hpre, _⟩ := hC.c3.csn m hm
   have h1 : CmtPre s m.term m.idx m.pre := by
@@ -56,15 +56,15 @@ theorem snapshot_committed {c0 : Cfg} {s : PSys} (hB : InvB c0 s) (hC : InvC c0 
 
 /-- **Leader Completeness**: a node in the leader role holds every prefix committed by a leader of a
 term not beyond its own -/
-theorem leader_complete {c0 : Cfg} {s : PSys} (hV : InvV c0 (vsys s)) (hL : InvL s) (hB : InvB c0 s)
-    (hC : InvC c0 s) (i : Nat) (hi : (s.nodes i).role = 2) (p : Nat × Nat) (hp : p ∈ s.cmts)
+theorem leader_complete {s : PSys} (hV : InvV (vsys s)) (hL : InvL s) (hB : InvB s)
+    (hC : InvC s) (i : Nat) (hi : (s.nodes i).role = 2) (p : Nat × Nat) (hp : p ∈ s.cmts)
     (ht : p.1 ≤ (s.nodes i).term) : (s.nodes i).log.take p.2 = (s.llog p.1).take p.2 := by
   rw [hL.ll i hi]
   have hel : Elected s (s.nodes i).term := ⟨i, (hV.ld i (by simpa [vsys, vproj] using hi)).1⟩
   exact cmt_prefix hB hC.c3 hC.lc hp ht hel
 
 /-- the ghost log of every elected term holds every prefix committed in an earlier term -/
-theorem leader_complete_ghost {c0 : Cfg} {s : PSys} (hB : InvB c0 s) (hC : InvC c0 s) (p : Nat × Nat)
+theorem leader_complete_ghost {s : PSys} (hB : InvB s) (hC : InvC s) (p : Nat × Nat)
     (hp : p ∈ s.cmts) (t : Nat) (ht : p.1 ≤ t) (hel : Elected s t) :
     (s.llog t).take p.2 = (s.llog p.1).take p.2 :=
   cmt_prefix hB hC.c3 hC.lc hp ht hel
@@ -77,7 +77,7 @@ def Committed (s : PSys) (k : Nat) (e : LEntry) : Prop :=
   0 < k ∧ ∃ p ∈ s.cmts, k ≤ p.2 ∧ (s.llog p.1)[k - 1]? = some e
 
 /-- at most one entry is ever committed at an index -/
-theorem committed_unique {c0 : Cfg} {s : PSys} (hB : InvB c0 s) (hC : InvC c0 s) {k : Nat} {e e' : LEntry}
+theorem committed_unique {s : PSys} (hB : InvB s) (hC : InvC s) {k : Nat} {e e' : LEntry}
     (h : Committed s k e) (h' : Committed s k e') : e = e' := by
   obtain ⟨hk, p, hp, h1, h2⟩ := h
   obtain ⟨_, p', hp', h1', h2'⟩ := h'
@@ -87,7 +87,7 @@ theorem committed_unique {c0 : Cfg} {s : PSys} (hB : InvB c0 s) (hC : InvC c0 s)
   injection this
 
 /-- every entry a node reports committed (index within its commit index) is a committed entry -/
-theorem reported_is_committed {c0 : Cfg} {s : PSys} (hC : InvC c0 s) (i k : Nat) (hk : 0 < k)
+theorem reported_is_committed {s : PSys} (hC : InvC s) (i k : Nat) (hk : 0 < k)
     (hi : k ≤ (s.nodes i).commit) : ∃ e, (s.nodes i).log[k - 1]? = some e ∧ Committed s k e := by
   rcases hC.c3.cm i with h0 | ⟨p, hp, h1, _, h3⟩
   · omega
@@ -98,7 +98,7 @@ theorem reported_is_committed {c0 : Cfg} {s : PSys} (hC : InvC c0 s) (i k : Nat)
     exact List.getElem?_eq_getElem hx
 
 /-- the same for what a node holds durably -/
-theorem durable_is_committed {c0 : Cfg} {s : PSys} (hC : InvC c0 s) (i k : Nat) (hk : 0 < k)
+theorem durable_is_committed {s : PSys} (hC : InvC s) (i k : Nat) (hk : 0 < k)
     (hi : k ≤ (s.nodes i).dcommit) : ∃ e, (s.nodes i).dlog[k - 1]? = some e ∧ Committed s k e := by
   rcases hC.c3.cmd i with h0 | ⟨p, hp, h1, _, h3⟩
   · omega
@@ -109,7 +109,7 @@ theorem durable_is_committed {c0 : Cfg} {s : PSys} (hC : InvC c0 s) (i k : Nat) 
     exact List.getElem?_eq_getElem hx
 
 /-- every entry inside a released snapshot is a committed entry -/
-theorem snapshot_is_committed {c0 : Cfg} {s : PSys} (hB : InvB c0 s) (hC : InvC c0 s) (m : Snap) (hm : m ∈ s.snaps)
+theorem snapshot_is_committed {s : PSys} (hB : InvB s) (hC : InvC s) (m : Snap) (hm : m ∈ s.snaps)
     (k : Nat) (hk : 0 < k) (hi : k ≤ m.idx) : ∃ e, m.pre[k - 1]? = some e ∧ Committed s k e := by
   obtain ⟨hel, hcm, hlen, hpre, _⟩ := hC.c3.csn m hm
   rcases hcm with h0 | ⟨p, hp, h1, h2⟩
@@ -165,7 +165,7 @@ theorem cmts_step (s s' : PSys) (e : Event) (h : applyEvent s e = .ok s') : ∀ 
     · cases h
 
 /-- **a committed entry stays committed** (the committed log only grows) -/
-theorem committed_step {c0 : Cfg} {s s' : PSys} (hC : InvC c0 s) (g : Grow s s') (e : Event)
+theorem committed_step {s s' : PSys} (hC : InvC s) (g : Grow s s') (e : Event)
     (h : applyEvent s e = .ok s') {k : Nat} {x : LEntry} (hk : Committed s k x) : Committed s' k x := by
   obtain ⟨h0, p, hp, h1, h2⟩ := hk
   obtain ⟨_, hlen, _, hel, _⟩ := hC.c3.cq p hp
@@ -175,7 +175,7 @@ theorem committed_step {c0 : Cfg} {s s' : PSys} (hC : InvC c0 s) (g : Grow s s')
   exact h2
 
 /-- every leader of a later term holds the committed prefix: the retention condition is met for good -/
-theorem ncle_of_committed {c0 : Cfg} {s : PSys} (hB : InvB c0 s) (hC : InvC c0 s) {p : Nat × Nat}
+theorem ncle_of_committed {s : PSys} (hB : InvB s) (hC : InvC s) {p : Nat × Nat}
     (hp : p ∈ s.cmts) (T : Nat) : NCle s p.1 p.2 T :=
   fun t' h1 _ hel => cmt_prefix hB hC.c3 hC.lc hp (Nat.le_of_lt h1) hel
 
@@ -183,11 +183,12 @@ theorem ncle_of_committed {c0 : Cfg} {s : PSys} (hB : InvB c0 s) (hC : InvC c0 s
 is a deciding quorum each of whose members holds the committed prefix in its durable log — in the
 state in which the commit happened and in every later state, whatever was truncated, overwritten,
 crashed or restarted in between -/
-theorem committed_durable_on_quorum {c0 : Cfg} {s : PSys} (hA : InvA s) (hB : InvB c0 s) (hC : InvC c0 s)
+theorem committed_durable_on_quorum {s : PSys} (hA : InvA s) (hB : InvB s) (hC : InvC s)
     (p : Nat × Nat) (hp : p ∈ s.cmts) :
-    ∃ q, c0.isQuorum q = true ∧ ∀ v ∈ q, (s.nodes v).dlog.take p.2 = (s.llog p.1).take p.2 := by
-  obtain ⟨_, _, _, _, q, hq, hacks⟩ := hC.c3.cq p hp
-  refine ⟨q, hq, ?_⟩
+    ∃ cfg q, (p, cfg) ∈ s.ccfgs ∧ cfg.isQuorum q = true ∧
+      ∀ v ∈ q, (s.nodes v).dlog.take p.2 = (s.llog p.1).take p.2 := by
+  obtain ⟨_, _, _, _, cfg, q, hcfg, hq, hacks⟩ := hC.c3.cq p hp
+  refine ⟨cfg, q, hcfg, hq, ?_⟩
   intro v hv
   obtain ⟨a, ha, hat, haf, hai⟩ := hacks v hv
   have hsub := hA.sub a ha
@@ -195,12 +196,12 @@ theorem committed_durable_on_quorum {c0 : Cfg} {s : PSys} (hA : InvA s) (hB : In
   exact hC.c1.retd v p.1 v a.idx a.pre hsub p.2 hai (ncle_of_committed hB hC hp _)
 
 /-- ... and, while such a member is up, in its volatile log as well -/
-theorem committed_held_by_quorum {c0 : Cfg} {s : PSys} (hA : InvA s) (hB : InvB c0 s) (hC : InvC c0 s)
+theorem committed_held_by_quorum {s : PSys} (hA : InvA s) (hB : InvB s) (hC : InvC s)
     (p : Nat × Nat) (hp : p ∈ s.cmts) :
-    ∃ q, c0.isQuorum q = true ∧ ∀ v ∈ q, (s.nodes v).up = true →
+    ∃ cfg q, (p, cfg) ∈ s.ccfgs ∧ cfg.isQuorum q = true ∧ ∀ v ∈ q, (s.nodes v).up = true →
       (s.nodes v).log.take p.2 = (s.llog p.1).take p.2 := by
-  obtain ⟨_, _, _, _, q, hq, hacks⟩ := hC.c3.cq p hp
-  refine ⟨q, hq, ?_⟩
+  obtain ⟨_, _, _, _, cfg, q, hcfg, hq, hacks⟩ := hC.c3.cq p hp
+  refine ⟨cfg, q, hcfg, hq, ?_⟩
   intro v hv hup
   obtain ⟨a, ha, hat, haf, hai⟩ := hacks v hv
   have hsub := hA.sub a ha
@@ -208,7 +209,7 @@ theorem committed_held_by_quorum {c0 : Cfg} {s : PSys} (hA : InvA s) (hB : InvB 
   exact hC.c1.ret v p.1 v a.idx a.pre (hA.o1 v hup _ hsub rfl) p.2 hai (ncle_of_committed hB hC hp _)
 
 /-- every commit index of every node lies within a recorded leader commit of a term not beyond the node's -/
-theorem commit_within_leader_commit {c0 : Cfg} {s : PSys} (hC : InvC c0 s) (i : Nat)
+theorem commit_within_leader_commit {s : PSys} (hC : InvC s) (i : Nat)
     (h0 : 0 < (s.nodes i).commit) :
     ∃ p ∈ s.cmts, (s.nodes i).commit ≤ p.2 ∧ p.1 ≤ (s.nodes i).term := by
   rcases hC.c3.cm i with h | ⟨p, hp, h1, h2, _⟩
